@@ -57,6 +57,57 @@ def ok_value(r):
     return None
 
 
+def float_delegation(R, rule="R08.2", fty_only=None):
+    """R08.2 for each float type: the whole literal goes to lexical_core::parse::<fty>, its value is returned unchanged and
+    nothing the parser accepted is refused afterwards; no float cast; error map. Returns {fty: body}."""
+    out = {}
+    # ---- R08.2 float delegation ---------------------------------------------------------------------------------
+    P = facts.program("dflt")
+    u = P.unit("scpi")
+    eng = C.engine("dflt", "scpi")
+    for fty, width in C.FLOATS.items():
+        if fty_only is not None and fty not in fty_only:
+            continue
+        bs = [b for ty, b in C.conversions(u) if ty == fty]
+        if len(bs) != 1:
+            R.anchor_lost(rule, "TryFrom<Token> for %s" % fty)
+            continue
+        b = bs[0]
+        out[fty] = b
+        oc, res = C.outcome_set(eng, b, "DecimalNumericProgramData")
+        parses = set()
+        good = True
+        filtered = []
+        for r in res:
+            pc = [e for e in r.trace if e.kind == "call" and e.name.startswith("lexical_core::parse")]
+            if len(pc) != 1:
+                good = False
+                continue
+            g = (pc[0].extra or {}).get("gargs") or ()
+            parses.add(tuple(g))
+            if "tok-DecimalNumericProgramData-0" not in repr(pc[0].args[0]):
+                good = False
+            if pc[0].name != "lexical_core::parse":
+                good = False  # parse_partial would accept a prefix
+            v = ok_value(r)
+            if v is not None and not (isinstance(v, SymV) and "lexical_core::parse" in repr(v.desc)):
+                good = False  # the value returned must be the parser's value itself
+            # ... and whatever the parser accepted is returned: no second opinion on a parsed value (a literal beyond the
+            # type's range is the infinity of its sign, a zero written with an exponent is zero)
+            parsed_ok = any(e.kind == "assume" and e.name == "variant" and e.args[1] == "Ok" and "lexical_core::parse" in repr(e.args[0]) for e in r.trace)
+            if parsed_ok and M.outcome(r) != "Ok":
+                good = False
+                filtered.append(M.outcome(r))
+        R.check(good and parses == {(fty,)}, rule, "%s:delegation" % fty, "whole literal -> lexical_core::parse::<%s>, its value returned unchanged" % fty,
+                "the %s conversion must pass the whole literal to lexical_core::parse::<%s> and return that value unchanged (found parser instantiations %s%s)" % (fty, fty, sorted(parses), "; a successfully parsed literal is then refused with %s" % sorted(set(filtered)) if filtered else ""), where=b.span)
+        casts = [(st["rv"]["kind"], st.get("line")) for bb in [b] + u.closures_of(b) for m in bb.all_mirs() for bi in m.live_blocks() for st in m.blocks[bi]["stmts"] if st["k"] == "assign" and st["rv"]["k"] == "cast" and st["rv"]["kind"] in ("FloatToFloat", "IntToFloat", "FloatToInt")]
+        R.check(not casts, rule, "%s:no-float-cast" % fty, "no float cast (no double rounding)", "the %s conversion contains a %s cast: the literal would be rounded twice" % (fty, casts[:1]), where=b.span)
+        emap = C.error_map("dflt", "scpi", b)
+        bad_ = {vn: sorted(oc) for vn, oc in emap.items() if oc != C.expected_error(vn)}
+        R.check(not bad_, rule, "%s:error-map" % fty, "parser Overflow/Underflow -> -222, InvalidDigit -> -121, otherwise -120", "numeric error mapping of the %s conversion is wrong for %s" % (fty, dict(list(bad_.items())[:4])), where=b.span)
+    return out
+
+
 def run(R, tier, configs=("dflt",)):
     for cfg in configs:
         R.configs.append(cfg)
@@ -109,40 +160,15 @@ def run(R, tier, configs=("dflt",)):
     R.count("accept_matrix_cells", n_rows)
     R.floor("R08.1", "accept matrix cells", n_rows, 7 * 38)
 
-    # ---- R08.2 float delegation ---------------------------------------------------------------------------------
+    # ---- R08.2 float delegation (float_delegation above) ---------------------------------------------------------------
     P = facts.program("dflt")
     u = P.unit("scpi")
     eng = C.engine("dflt", "scpi")
+    fbodies = float_delegation(R)
     for fty, width in C.FLOATS.items():
-        bs = [b for ty, b in C.conversions(u) if ty == fty]
-        if len(bs) != 1:
-            R.anchor_lost("R08.2", "TryFrom<Token> for %s" % fty)
+        b = fbodies.get(fty)
+        if b is None:
             continue
-        b = bs[0]
-        oc, res = C.outcome_set(eng, b, "DecimalNumericProgramData")
-        parses = set()
-        good = True
-        for r in res:
-            pc = [e for e in r.trace if e.kind == "call" and e.name.startswith("lexical_core::parse")]
-            if len(pc) != 1:
-                good = False
-                continue
-            g = (pc[0].extra or {}).get("gargs") or ()
-            parses.add(tuple(g))
-            if "tok-DecimalNumericProgramData-0" not in repr(pc[0].args[0]):
-                good = False
-            if pc[0].name != "lexical_core::parse":
-                good = False  # parse_partial would accept a prefix
-            v = ok_value(r)
-            if v is not None and not (isinstance(v, SymV) and "lexical_core::parse" in repr(v.desc)):
-                good = False  # the value returned must be the parser's value itself
-        R.check(good and parses == {(fty,)}, "R08.2", "%s:delegation" % fty, "whole literal -> lexical_core::parse::<%s>, its value returned unchanged" % fty,
-                "the %s conversion must pass the whole literal to lexical_core::parse::<%s> and return that value unchanged (found parser instantiations %s)" % (fty, fty, sorted(parses)), where=b.span)
-        casts = [(st["rv"]["kind"], st.get("line")) for bb in [b] + u.closures_of(b) for m in bb.all_mirs() for bi in m.live_blocks() for st in m.blocks[bi]["stmts"] if st["k"] == "assign" and st["rv"]["k"] == "cast" and st["rv"]["kind"] in ("FloatToFloat", "IntToFloat", "FloatToInt")]
-        R.check(not casts, "R08.2", "%s:no-float-cast" % fty, "no float cast (no double rounding)", "the %s conversion contains a %s cast: the literal would be rounded twice" % (fty, casts[:1]), where=b.span)
-        emap = C.error_map("dflt", "scpi", b)
-        bad_ = {vn: sorted(oc) for vn, oc in emap.items() if oc != C.expected_error(vn)}
-        R.check(not bad_, "R08.2", "%s:error-map" % fty, "parser Overflow/Underflow -> -222, InvalidDigit -> -121, otherwise -120", "numeric error mapping of the %s conversion is wrong for %s" % (fty, dict(list(bad_.items())[:4])), where=b.span)
         # ---- R08.3 keyword table: the conversion folded on character data around every keyword ---------------------
         from .c03 import ref_form_match
         feng = C.fold_engine("dflt", "scpi")
